@@ -39,8 +39,10 @@ def _preexec(nofile):
 def run_rq(binary, cwd, args, env_extra=None, pre=None, timeout=RUN_TIMEOUT, nofile=None):
     """args: list of CLI arguments after the binary.  pre: argv prefix (e.g. strace ...)."""
     argv = (pre or []) + [binary] + list(args)
-    env = clean_env(env_extra)
+    env = clean_env()
     env.pop("RAPIDQUILT_THREADS", None)
+    if env_extra:
+        env.update(env_extra)
     try:
         p = subprocess.run(argv, cwd=cwd, env=env, stdout=subprocess.PIPE, stderr=subprocess.PIPE, timeout=timeout,
                            preexec_fn=_preexec(nofile))
